@@ -375,7 +375,15 @@ func c11Case(c *core.Ctx) *core.Result {
 				}
 				data := document.NewTemplateData()
 				data.SetVariable("x", "value")
-				data.SetList("rows", []interface{}{map[string]interface{}{"v": "1"}, map[string]interface{}{"v": "2"}})
+				switch r.Intn(4) { // the list of the document-level loop: two items, one, none, not supplied at all
+				case 0:
+					data.SetList("rows", []interface{}{})
+				case 1:
+				case 2:
+					data.SetList("rows", []interface{}{map[string]interface{}{"v": "1"}})
+				default:
+					data.SetList("rows", []interface{}{map[string]interface{}{"v": "1"}, map[string]interface{}{"v": "2"}})
+				}
 				if r.Bool() {
 					d2, err = eng.RenderTemplateToDocument("t", data)
 				} else {
